@@ -23,6 +23,7 @@ type Profile struct {
 	RecSplice                                                                          int  // percent of grammars that get a nested-group idiom (recursive alternative sharing its first character with a sibling)
 	WUntil                                                                             int  // weight of the "(!T .)* T" idiom with a terminator T that leaves tokens
 	TwoCapSplice                                                                       int  // percent of grammars whose first rule first tries two captures in one sequence, the second failing, then an alternative that begins with an action
+	LookSplice                                                                         int  // percent of grammars whose first rule first tries the lookahead variant of the memo splice (a rule remembered outside a lookahead, hit inside one)
 	ItemSplice                                                                         int  // percent of grammars whose first rule tries the bracketed-item idiom first (single-use rules right behind a dispatch character)
 	ListSplice                                                                         int  // percent of grammars whose first rule becomes a right-recursive list whose items end in the grammar's last action
 	MemoSplice                                                                         int  // percent of grammars with a re-enter-after-overwrite choice (memo splice)
@@ -34,12 +35,12 @@ type Profile struct {
 }
 
 var Profiles = map[string]Profile{
-	"plain":      {ItemSplice: 10, Name: "plain", StringSplice: 15, KeywordSplice: 15, ExtremeSplice: 15, WUntil: 3, ListSplice: 20, MinRules: 2, MaxRules: 6, Depth: 3, AltMin: 2, AltMax: 4, SeqMax: 4, WTerm: 22, WSeq: 20, WAlt: 18, WOpt: 6, WStar: 6, WPlus: 6, WAnd: 4, WNot: 4, WCap: 6, WRef: 8, WAct: 6, WPred: 2, WState: 1, Hostile: 8, Newline: 2},
+	"plain":      {LookSplice: 8, ItemSplice: 10, Name: "plain", StringSplice: 15, KeywordSplice: 15, ExtremeSplice: 15, WUntil: 3, ListSplice: 20, MinRules: 2, MaxRules: 6, Depth: 3, AltMin: 2, AltMax: 4, SeqMax: 4, WTerm: 22, WSeq: 20, WAlt: 18, WOpt: 6, WStar: 6, WPlus: 6, WAnd: 4, WNot: 4, WCap: 6, WRef: 8, WAct: 6, WPred: 2, WState: 1, Hostile: 8, Newline: 2},
 	"switchy":    {ItemSplice: 25, Name: "switchy", StringSplice: 10, KeywordSplice: 25, ExtremeSplice: 12, Dispatch: 60, RecSplice: 40, MinRules: 2, MaxRules: 6, Depth: 3, AltMin: 3, AltMax: 6, SeqMax: 3, WTerm: 22, WSeq: 16, WAlt: 30, WOpt: 6, WStar: 5, WPlus: 4, WAnd: 5, WNot: 5, WCap: 4, WRef: 10, WAct: 4, WPred: 1, WState: 0, Hostile: 6, Newline: 1},
-	"backtracky": {TwoCapSplice: 10, ItemSplice: 6, Name: "backtracky", StringSplice: 10, KeywordSplice: 15, ExtremeSplice: 10, WUntil: 8, ListSplice: 20, MemoSplice: 50, CaptureOnly: 35, MinRules: 2, MaxRules: 5, Depth: 3, AltMin: 2, AltMax: 4, SeqMax: 4, WTerm: 18, WSeq: 22, WAlt: 22, WOpt: 5, WStar: 5, WPlus: 4, WAnd: 6, WNot: 4, WCap: 10, WRef: 12, WAct: 10, WPred: 1, WState: 0, Hostile: 3, Newline: 1, SharedPrefix: 60},
-	"deep":       {ItemSplice: 10, Name: "deep", StringSplice: 10, KeywordSplice: 10, ExtremeSplice: 10, WUntil: 4, CaptureOnly: 10, MinRules: 3, MaxRules: 7, Depth: 4, AltMin: 2, AltMax: 3, SeqMax: 3, WTerm: 14, WSeq: 22, WAlt: 12, WOpt: 6, WStar: 6, WPlus: 6, WAnd: 2, WNot: 2, WCap: 14, WRef: 18, WAct: 8, WPred: 1, WState: 0, Hostile: 10, Newline: 2},
+	"backtracky": {LookSplice: 20, TwoCapSplice: 10, ItemSplice: 6, Name: "backtracky", StringSplice: 10, KeywordSplice: 15, ExtremeSplice: 10, WUntil: 8, ListSplice: 20, MemoSplice: 50, CaptureOnly: 35, MinRules: 2, MaxRules: 5, Depth: 3, AltMin: 2, AltMax: 4, SeqMax: 4, WTerm: 18, WSeq: 22, WAlt: 22, WOpt: 5, WStar: 5, WPlus: 4, WAnd: 6, WNot: 4, WCap: 10, WRef: 12, WAct: 10, WPred: 1, WState: 0, Hostile: 3, Newline: 1, SharedPrefix: 60},
+	"deep":       {LookSplice: 8, ItemSplice: 10, Name: "deep", StringSplice: 10, KeywordSplice: 10, ExtremeSplice: 10, WUntil: 4, CaptureOnly: 10, MinRules: 3, MaxRules: 7, Depth: 4, AltMin: 2, AltMax: 3, SeqMax: 3, WTerm: 14, WSeq: 22, WAlt: 12, WOpt: 6, WStar: 6, WPlus: 6, WAnd: 2, WNot: 2, WCap: 14, WRef: 18, WAct: 8, WPred: 1, WState: 0, Hostile: 10, Newline: 2},
 	"erry":       {Name: "erry", StringSplice: 10, KeywordSplice: 10, ExtremeSplice: 8, WUntil: 4, RefHeavy: true, MinRules: 4, MaxRules: 7, Depth: 3, AltMin: 2, AltMax: 3, SeqMax: 5, WTerm: 14, WSeq: 30, WAlt: 10, WOpt: 6, WStar: 5, WPlus: 6, WAnd: 2, WNot: 2, WCap: 14, WRef: 30, WAct: 2, WPred: 1, WState: 0, Hostile: 15, Newline: 20},
-	"actiony":    {TwoCapSplice: 25, ItemSplice: 8, Name: "actiony", StringSplice: 20, KeywordSplice: 10, ExtremeSplice: 12, WUntil: 8, ListSplice: 40, CaptureOnly: 10, MinRules: 2, MaxRules: 5, Depth: 3, AltMin: 2, AltMax: 3, SeqMax: 5, WTerm: 14, WSeq: 26, WAlt: 14, WOpt: 8, WStar: 8, WPlus: 8, WAnd: 5, WNot: 3, WCap: 16, WRef: 12, WAct: 24, WPred: 1, WState: 0, Hostile: 4, Newline: 2, SharedPrefix: 40},
+	"actiony":    {LookSplice: 8, TwoCapSplice: 25, ItemSplice: 8, Name: "actiony", StringSplice: 20, KeywordSplice: 10, ExtremeSplice: 12, WUntil: 8, ListSplice: 40, CaptureOnly: 10, MinRules: 2, MaxRules: 5, Depth: 3, AltMin: 2, AltMax: 3, SeqMax: 5, WTerm: 14, WSeq: 26, WAlt: 14, WOpt: 8, WStar: 8, WPlus: 8, WAnd: 5, WNot: 3, WCap: 16, WRef: 12, WAct: 24, WPred: 1, WState: 0, Hostile: 4, Newline: 2, SharedPrefix: 40},
 	"listy":      {Name: "listy", StringSplice: 20, KeywordSplice: 10, ExtremeSplice: 12, WUntil: 8, ListSplice: 100, MemoSplice: 40, CaptureOnly: 10, MinRules: 2, MaxRules: 5, Depth: 3, AltMin: 2, AltMax: 3, SeqMax: 5, WTerm: 14, WSeq: 26, WAlt: 14, WOpt: 8, WStar: 8, WPlus: 8, WAnd: 5, WNot: 3, WCap: 16, WRef: 12, WAct: 24, WPred: 1, WState: 0, Hostile: 4, Newline: 2, SharedPrefix: 40},
 	"liney":      {TwoCapSplice: 8, Name: "liney", StringSplice: 20, KeywordSplice: 10, ExtremeSplice: 10, WUntil: 6, MinRules: 2, MaxRules: 5, Depth: 3, AltMin: 2, AltMax: 4, SeqMax: 5, WTerm: 26, WSeq: 24, WAlt: 14, WOpt: 6, WStar: 6, WPlus: 6, WAnd: 3, WNot: 3, WCap: 6, WRef: 8, WAct: 3, WPred: 1, WState: 0, Hostile: 25, Newline: 25},
 }
@@ -59,6 +60,7 @@ type genState struct {
 	rules    []*Rule
 	noNames  bool // inside a capture-only backtrack point: no actions, no references
 	twoCap   bool // memoSplice is asked for its two-capture variant
+	lookMemo bool // memoSplice is asked for its lookahead variant
 }
 
 func (s *genState) pct(p int, label string) bool {
@@ -408,6 +410,13 @@ func (s *genState) expr(i, depth int, must, guarded bool) *Expr {
 				return Un(unary, Ref(j))
 			}
 		}
+		if (kind == "star" || kind == "plus") && s.pct(15, "loopcap") {
+			// every iteration leaves a record of its own, right where the loop stands
+			// (<x>+ at the head of a rule or capture)
+			if tm := s.term(); s.mustConsume(tm) {
+				return Un(unary, Un(KCap, tm))
+			}
+		}
 		return Un(unary, s.expr(i, depth-1, must, guarded))
 	case "cap":
 		if !must && !s.noNames && s.pct(25, "nullcap") {
@@ -724,6 +733,9 @@ func (s *genState) memoSplice(g *Grammar) {
 	msvar := rapid.IntRange(0, 7).Draw(t, "msvar")
 	if s.twoCap {
 		msvar = 1
+	}
+	if s.lookMemo {
+		msvar = 0
 	}
 	switch msvar {
 	case 0:
@@ -1207,6 +1219,11 @@ func WellFormedGrammar(t *rapid.T, p Profile) *Grammar {
 		s.twoCap = true
 		s.memoSplice(g)
 		s.twoCap = false
+	}
+	if s.pct(p.LookSplice, "looksplice") {
+		s.lookMemo = true
+		s.memoSplice(g)
+		s.lookMemo = false
 	}
 	if s.pct(p.RecSplice, "recsplice") {
 		s.recSplice(g)
